@@ -49,11 +49,20 @@ def alphabet(seed):
     return list(keys), list(vals)
 
 
+def alphabet2():
+    """a key whose lower-cased form has another length (U+0130 -> 'i' + U+0307): still one key in two spellings"""
+    k = "\u0130d"
+    return [k, k.lower(), "B", "b", "C"], ["1", "2"]
+
+
 def inits(keys, vals):
     a, _a2, _b, b2, c = keys
     return [["empty", []],
             ["dict", [[a, vals[0]], [b2, vals[1]]]],
             ["text", [[a, vals[0]], [b2, vals[1]], [c, vals[0]]]]]
+
+
+SORT_KEYS = {"len": len, "const": lambda k: 0}
 
 
 def operations(keys, vals):
@@ -66,14 +75,14 @@ def operations(keys, vals):
     ops += [("last", k) for k in keys]
     ops += [("before", k, r) for k in keys for r in keys]
     ops += [("after", k, r) for k in keys for r in keys]
-    ops += [("sort",), ("copy",), ("reparse",)]
+    ops += [("sort",), ("sortk", "len"), ("sortk", "const"), ("copy",), ("reparse",)]
     return ops
 
 
 def bounds(tier):
-    return {"keys": "5 (two case-collision pairs + one single key)", "values": 2, "operations": 91,
+    return {"keys": "5 (two case-collision pairs + one single key)", "values": 2, "operations": 93,
             "operation_kinds": ["set", "del", "get", "in", "len", "iter", "dump", "first", "last", "before (25 pairs)",
-                                "after (25 pairs)", "sort", "copy", "reparse"],
+                                "after (25 pairs)", "sort", "sort with tying keys (len, constant)", "copy", "reparse"],
             "initial_states": ["empty", "dict-initialised (2 keys)", "parsed from text (3 keys)"],
             "tree_depth": TREE_DEPTH[tier], "graph": "fixpoint of the abstract state space",
             "graph_tree_depth": GRAPH_TREE_DEPTH, "graph_tree_observation": GRAPH_OBSERVE[tier]}
@@ -118,6 +127,8 @@ def model_apply(m, op):
             m.order_after(op[1], op[2])
         elif t == "sort":
             m.sort_fields()
+        elif t == "sortk":
+            m.sort_by(SORT_KEYS[op[1]])
         elif t == "copy":
             m = m.copy()
         elif t == "reparse":
@@ -206,6 +217,8 @@ def real_apply(d, op):
             d.order_after(op[1], op[2])
         elif t == "sort":
             d.sort_fields()
+        elif t == "sortk":
+            d.sort_fields(key=SORT_KEYS[op[1]])      # keys that tie: a stable sort keeps the current order
         elif t == "copy":
             d = d.copy()
         elif t == "reparse":
@@ -393,17 +406,24 @@ def units(tier, seed):
         tree(level)
     for observe in GRAPH_OBSERVE[tier][1:]:
         graph(2, observe)
+    # the same tree (depth 1-2) over the alphabet with the length-changing case pair
+    nops2 = len(operations(*alphabet2()))
+    for level in (1, 2):
+        for i in range(3):
+            for f in ([None] if level == 1 else range(nops2)):
+                out.append({"mode": "tree", "init": i, "prefix": [], "first": f, "level": level, "observe": "end",
+                            "alt": True})
     return out
 
 
 def unit_cost(u, tier):
-    n = 90 ** u["level"] if u["first"] is None else 90 ** (u["level"] - 1)
+    n = 93 ** u["level"] if u["first"] is None else 93 ** (u["level"] - 1)
     return n * (3 + len(u["prefix"]) + u["level"] + (2 if u["observe"] == "every" else 0))
 
 
 def run_unit(u, tier, seed):
     part = core.Part()
-    keys, vals = alphabet(seed)
+    keys, vals = alphabet2() if u.get("alt") else alphabet(seed)
     ops = operations(keys, vals)
     init = inits(keys, vals)[u["init"]]
     prefix = _ops(u["prefix"])
@@ -432,7 +452,7 @@ def run_unit(u, tier, seed):
             part.nontrivial += bool(info["nontrivial"])
         return True
 
-    reps = representatives(seed)
+    reps = representatives(seed) if not u.get("alt") else set()
     if u["mode"] == "tree" and level == 1 or u["mode"] == "graph" and level == 1 and len(prefix) > TREE_DEPTH[tier]:
         # the start state itself: an initial paragraph, or an abstract state rebuilt by its shortest history (when
         # that history is short enough to be a tree-mode history the tree unit does this and counts the state)
